@@ -42,7 +42,8 @@ func (a *AspectEliminationHeuristic) Spec_Identifier() string {
 }
 
 func (a *AspectEliminationHeuristic) Spec_MethodParameters() interface{} {
-	return AspectEliminationHeuristic{}
+	// C20: the schema served by /api/preferenceFunctions describes the parameters, not the heuristic
+	return AspectEliminationHeuristicParams{}
 }
 
 func (a *AspectEliminationHeuristic) Spec_ParseParams(dm *model.DecisionMaker) interface{} {
